@@ -53,11 +53,12 @@ theorem cfg_req_union (sp : USpell) (n : Nat) : requiredArgsOk (unionName sp) n 
 theorem cfg_bare (o : BareOrigin) (h : o.isBuiltin = true) : bareBuiltins.contains o.name = true := by
   cases o <;> first | decide | simp [BareOrigin.isBuiltin] at h
 /-- every bare typing generic named in C06 is in one of the two tables with a positive requirement -/
-theorem cfg_req_bare (o : BareOrigin) (h : o.isBuiltin = false) (ht : o ≠ .tType) : requiredArgsOk o.name 0 = false := by
-  cases o <;> first | exact absurd rfl ht | decide | simp [BareOrigin.isBuiltin] at h
+theorem cfg_req_bare (o : BareOrigin) (h : o.isBuiltin = false) : requiredArgsOk o.name 0 = false := by
+  cases o <;> first | decide | simp [BareOrigin.isBuiltin] at h
 theorem cfg_req_bare_builtin (o : BareOrigin) (h : o.isBuiltin = true) : requiredArgsOk o.name 0 = true := by
   cases o <;> first | decide | simp [BareOrigin.isBuiltin] at h
-theorem cfg_req_tType : requiredArgsOk (BareOrigin.name .tType) 0 = true := by decide
+theorem cfg_req_type (sp : Spell) : requiredArgsOk (typeName sp) 1 = true := by cases sp <;> decide
+theorem cfg_req_Type : requiredArgsOk "Type" 1 = true := by decide
 theorem cfg_convGuard : convGuardIsAlias = true := by decide
 theorem cfg_convertible (n : String) : originConvertible n = true := by
   have : convertAliasFallback = true := by decide
